@@ -4,6 +4,8 @@ import (
 	"os"
 	"strings"
 	"time"
+
+	"github.com/tidwall/gjson"
 )
 
 // C14: the sweeper deletes exactly the objects whose deadline has passed, each through a logged DEL,
@@ -28,6 +30,10 @@ func VH_C14_sweeper() {
 	vhDo(s, "SET", "k", "a", "EX", "5", "POINT", "1", "2")
 	vhDo(s, "SET", "k", "b", "EX", "9", "STRING", "x")
 	vhDo(s, "SET", "k", "c", "POINT", "3", "4")
+	// a fence around everything and a subscriber: each expiry must reach them as a 'del' notification
+	vhDo(s, "SETCHAN", "watch", "WITHIN", "k", "FENCE", "BOUNDS", "-10", "-10", "10", "10")
+	sub := newSubtarget()
+	s.pubsub.register(pubsubChannel, "watch", sub)
 	d0, _ := vhDeadline(s, "k", "a")
 	switch vchoose(8) {
 	case 1:
@@ -56,6 +62,13 @@ func VH_C14_sweeper() {
 	now := time.Unix(d0/1000000000+delta, 0)
 	nowNS := now.UnixNano()
 	s.aofbuf = nil
+	sub.msgs = nil
+	var wasSpatial [3]bool
+	for i, id := range ids {
+		if col, _ := s.cols.Get("k"); col != nil && col.Get(id) != nil {
+			wasSpatial[i] = col.Get(id).IsSpatial()
+		}
+	}
 
 	s.backgroundExpireObjects(now)
 
@@ -66,6 +79,16 @@ func VH_C14_sweeper() {
 		logged := strings.Contains(log, string(vhEncode("del", "k", id)))
 		vassert("C14.never_early_never_late", still == (had[i] && !due))
 		vassert("C14.expiry_is_a_logged_del", logged == due)
+		// fences observe the expiry of an object inside their area as a del message (exactly one)
+		seen := 0
+		for _, m := range sub.msgs {
+			if gjson.Get(m.message, "command").String() == "del" && gjson.Get(m.message, "id").String() == id {
+				seen++
+			}
+		}
+		if wasSpatial[i] {
+			vassert("C14.expiry_is_a_del_notification", seen == vhB2I(due))
+		}
 	}
 	vobs("sweep", delta, len(log))
 }
